@@ -40,6 +40,7 @@ using PairT = std::pair<std::uint8_t, std::int64_t>;
 using TupT = std::tuple<std::uint8_t, std::int64_t>;
 using ArrU16 = std::array<std::uint16_t, 3>;
 using CArrU16 = std::uint16_t[3];
+using CArrF2 = float[2];
 using TupU16 = std::tuple<std::uint16_t, std::uint16_t, std::uint16_t>;
 using VecU8 = std::vector<std::uint8_t>;
 using ArrU8 = std::array<std::uint8_t, 2>;
@@ -201,6 +202,26 @@ struct Fit<std::vector<T>, std::tuple<Ts...>> {
   static bool ok(const std::vector<T>& a) { return a.size() == sizeof...(Ts); }
 };
 
+// Does overload resolution admit Protocol<P>::Read(Deserializer*, T*) / Protocol<P>::Write(Serializer*, const T&)?
+// (compile-time facts, detected with SFINAE so that a gate that wrongly rejects a pair is a failed obligation, not a
+// unit that stops compiling)
+template <typename... Ts>
+struct VoidT { using type = void; };
+using PDes = nop::Deserializer<nop::PedanticBufferReader*>;
+using PSer = nop::Serializer<nop::PedanticBufferWriter*>;
+template <typename P, typename T, typename = void>
+struct CanRead { static constexpr bool value = false; };
+template <typename P, typename T>
+struct CanRead<P, T, typename VoidT<decltype(nop::Protocol<P>::Read(static_cast<PDes*>(nullptr), static_cast<T*>(nullptr)))>::type> {
+  static constexpr bool value = true;
+};
+template <typename P, typename T, typename = void>
+struct CanWrite { static constexpr bool value = false; };
+template <typename P, typename T>
+struct CanWrite<P, T, typename VoidT<decltype(nop::Protocol<P>::Write(static_cast<PSer*>(nullptr), *static_cast<const T*>(nullptr)))>::type> {
+  static constexpr bool value = true;
+};
+
 // The wire half of C09 for one ordered pair, guarded by the value the trait actually has.
 template <typename A, typename B, bool DocumentedFungible>
 void lemma_fungible() {
@@ -208,6 +229,8 @@ void lemma_fungible() {
   vt_check(fab == fba, "IsFungible<A,B> == IsFungible<B,A>");
   vt_check(nop::IsFungible<A, A>::value && nop::IsFungible<B, B>::value, "IsFungible<A,A> is true");
   vt_check(!DocumentedFungible || fab, "a pair the documentation declares fungible evaluates to true");
+  vt_check((CanRead<A, B>::value == fab) && (CanWrite<A, B>::value == fab) && (CanRead<B, A>::value == fba) && (CanWrite<B, A>::value == fba),
+           "Protocol<P>::Read / Write admit a type exactly when IsFungible says so");
   vt_cover(true, "trait facts evaluated");
   if (!fab) {
     vt_cover(true, "end reached");  // a pair the trait rejects has no wire obligation
@@ -254,6 +277,8 @@ VT_FUNG(arr_pair, vt::ArrF2, vt::PairF, false)
 VT_FUNG(arr_tuple, vt::ArrF2, vt::TupF, true)
 VT_FUNG(pair_tuple, vt::PairT, vt::TupT, true)
 VT_FUNG(arr_carr, vt::ArrU16, vt::CArrU16, true)
+VT_FUNG(arr_carr_f, vt::ArrF2, vt::CArrF2, true)
+VT_FUNG(tup_carr_f, vt::TupF, vt::CArrF2, true)
 VT_FUNG(intarr_tuple, vt::ArrU16, vt::TupU16, false)
 VT_FUNG(wrapper, vt::V1, std::uint16_t, true)
 VT_FUNG(vec_arr_u8, vt::VecU8, vt::ArrU8, true)
